@@ -236,7 +236,7 @@ pub fn run(ctx: &Ctx) -> Report {
         return rep;
     }
     run_cases(ctx, &mut rep, 1, 1, |l, _rng, _| {
-        let t = LeapTable(REAL_TABLE.to_vec());
+        let t = LeapTable(if ctx.scale < 1.0 { REAL_TABLE[..4].to_vec() } else { REAL_TABLE.to_vec() });
         let n = check_table(l, &t, &[0, 1_700_000_000, 1483228826 + 5_000_000]);
         l.class("real_27_record_table");
         l.op_n("probe-zone lookups and searches", n);
@@ -244,7 +244,10 @@ pub fn run(ctx: &Ctx) -> Report {
         l.sample(|| Json::obj().set("table", "the 27 records of right/UTC (tzdata 2025b)").set("T_values", 27 * 5 + 3));
     });
     run_cases(ctx, &mut rep, 2, ctx.n(5000, 200_000), |l, rng, i| {
-        let t = gen_leaps(rng, true);
+        let mut t = gen_leaps(rng, true);
+        if ctx.scale < 1.0 {
+            t.0.truncate(3); // slices: short tables (every record costs ~60 interpreted calls)
+        }
         let mut extra = vec![];
         for _ in 0..3 {
             let (li, _) = *rng.pick(&t.0);
